@@ -1131,16 +1131,14 @@ pub unsafe extern "C" fn authorizer_builder_build(
     if builder.is_none() {
         update_last_error(Error::InvalidArgument);
     }
-    let builder = builder.unwrap();
-    builder
-        .0
-        .clone()
-        .take()
-        .unwrap()
-        .build(&token.0)
-        .map(Authorizer)
-        .map(Box::new)
-        .ok()
+    let builder = builder?;
+    match builder.0.clone().take().unwrap().build(&token.0) {
+        Ok(authorizer) => Some(Box::new(Authorizer(authorizer))),
+        Err(e) => {
+            update_last_error(Error::Biscuit(e));
+            None
+        }
+    }
 }
 
 /// Build an authorizer without a token
@@ -1153,16 +1151,14 @@ pub unsafe extern "C" fn authorizer_builder_build_unauthenticated(
     if builder.is_none() {
         update_last_error(Error::InvalidArgument);
     }
-    let builder = builder.unwrap();
-    builder
-        .0
-        .clone()
-        .take()
-        .unwrap()
-        .build_unauthenticated()
-        .map(Authorizer)
-        .map(Box::new)
-        .ok()
+    let builder = builder?;
+    match builder.0.clone().take().unwrap().build_unauthenticated() {
+        Ok(authorizer) => Some(Box::new(Authorizer(authorizer))),
+        Err(e) => {
+            update_last_error(Error::Biscuit(e));
+            None
+        }
+    }
 }
 
 #[no_mangle]
